@@ -11,6 +11,14 @@ Apply(ll, m, lt) ==
   IF lt[1] = "lss"
   THEN LET f == Pad8(lt[2])  r == Step(ll, f) IN
        [ev |-> <<"rx", 2021, 8>> \o f, l |-> r.l, nmt |-> m, x |-> r.out, reset |-> FALSE]
+  ELSE IF lt[1] = "sdoid"
+       \* an SDO read of 1000h:0 addressed to node id lt[2]: served iff that is the ACTIVE node id (every service follows the id that
+       \* a reset communication activated); a frame for another id is not the node's
+       THEN LET f == <<64, 0, 16, 0, 0, 0, 0, 0>> IN
+            [ev |-> <<"rx", 1536 + lt[2], 8>> \o f, l |-> ll, nmt |-> m, reset |-> FALSE,
+             x |-> IF m = 4 THEN << <<"free">> >>
+                   ELSE IF lt[2] = ll.node THEN << <<"tx", 1408 + lt[2], 8, 67, 0, 16, 0, 0, 0, 0, 0>> >>
+                   ELSE << <<"cb", "canrx", 1536 + lt[2]>> >>]
   ELSE IF lt[2] = 130 \/ lt[2] = 129
        THEN LET l1 == ResetCom(ll) IN
             [ev |-> <<"rx", 0, 2, lt[2], 0, 0, 0, 0, 0, 0, 0>>, l |-> l1, nmt |-> 2, reset |-> TRUE,
